@@ -1,110 +1,3 @@
-/-
-  Driver for the hand-written SPEC side (the right-hand sides of the theorems) and the
-  hand-written models.  Imports nothing generated: it still runs when a kernel became
-  untranslatable.   `lake env lean --run SpecDriver.lean < requests > answers`
--/
-import YawVerif.Drv.Common
-import YawVerif.Drv.Cont
-import YawVerif.Model.BinSpec
-
-open Yaw Yaw.Proto Yaw.Drv
-
-namespace Yaw.SpecDrv
-
-def hCf : R String := do
-  let q ← readCf
-  let mut out : Array String := #[]
-  for b in [0:q.B] do
-    let ncs (c : Option Cont) := c.map (·.nc b)
-    let d := q.dd.nc b
-    out := out.push (fmtOO (Spec.estimate (Spec.term q.N d) ((ncs q.dr).map (Spec.term q.N))
-      ((ncs q.rd).map (Spec.term q.N)) ((ncs q.rr).map (Spec.term q.N))))
-    for k in [0:q.N] do
-      let rm (c : NC) := Spec.term (q.N - 1) (c.remove k)
-      out := out.push (fmtOO (Spec.estimate (rm d) ((ncs q.dr).map rm) ((ncs q.rd).map rm) ((ncs q.rr).map rm)))
-  pure (join out)
-
-def hJk : R String := do
-  let N ← nat
-  let B ← nat
-  let c ← readCont N B
-  let mut out : Array String := #[]
-  for b in [0:B] do
-    let d := c.nc b
-    out := out.push (fmtRat (Spec.total N d.a))
-    for k in [0:N] do out := out.push (fmtRat (Spec.total (N - 1) (Spec.removePatch k d.a)))
-    let norm (n : Nat) (e : NC) := if e.auto then Spec.normAuto n e.w1 else Spec.normCross n e.w1 e.w2
-    out := out.push (fmtRat (norm N d))
-    for k in [0:N] do out := out.push (fmtRat (norm (N - 1) (d.remove k)))
-  pure (join out)
-
-def hCov : R String := do
-  let n ← nat
-  let B ← nat
-  let xs ← rats (n * B)
-  let x : Nat → Nat → Rat := fun k p => xs.getD (k * B + p) 0
-  if n = 1 then pure "nan" else
-  let mut out : Array String := #[]
-  for p in [0:B] do
-    for q in [0:B] do
-      out := out.push (fmtRat (Spec.jkCov n x p q))
-  pure (join out)
-
-/-- spec of n(z): per entry `num radicand` of w_sp / sqrt(dz² w_ss w_pp), absent = 1 -/
-def hNz : R String := do
-  let B ← nat
-  let M ← nat
-  let hasRef ← Proto.bool
-  let hasUnk ← Proto.bool
-  let dz ← rats B
-  let wsp ← rats ((M + 1) * B)
-  let wss ← if hasRef then some <$> rats ((M + 1) * B) else pure none
-  let wpp ← if hasUnk then some <$> rats ((M + 1) * B) else pure none
-  let mut out : Array String := #[]
-  for r in [0:M + 1] do
-    for b in [0:B] do
-      let i := r * B + b
-      let s' := match wss with | some a => a.getD i 0 | none => 1
-      let p' := match wpp with | some a => a.getD i 0 | none => 1
-      out := out.push (fmtRat (wsp.getD i 0))
-      out := out.push (fmtRat (dz.getD b 0 * dz.getD b 0 * s' * p'))
-  pure (join out)
-
-/-- leave-one-out histogram sums: `histjk N B counts(N*B)` → data(B) then samples(N*B) -/
-def hHistJk : R String := do
-  let N ← nat
-  let B ← nat
-  let c ← rats (N * B)
-  let mut out : Array String := #[]
-  for b in [0:B] do
-    out := out.push (fmtRat (sumTo N fun i => c.getD (i * B + b) 0))
-  for k in [0:N] do
-    for b in [0:B] do
-      out := out.push (fmtRat (Spec.looSum N (fun i => c.getD (i * B + b) 0) k))
-  pure (join out)
-
-/-- `bin closedRight B edges(B+1) n (z w)*n` → per-bin weight sums by the closed-side rule -/
-def hBin : R String := do
-  let cr ← Proto.bool
-  let B ← nat
-  let edges ← rats (B + 1)
-  let n ← nat
-  let flat ← rats (2 * n)
-  let objs := (List.range n).map fun i => (flat.getD (2 * i) 0, flat.getD (2 * i + 1) 0)
-  pure (join ((Bin.specSums cr (vec edges) B objs).map fmtRat).toArray)
-
-def handler (kind : String) : R String :=
-  match kind with
-  | "cf" => hCf
-  | "jk" => hJk
-  | "cov" => hCov
-  | "nz" => hNz
-  | "histjk" => hHistJk
-  | "cont" => hCont
-  | "bin" => hBin
-  | _ => throw s!"unknown kind {kind}"
-
-end Yaw.SpecDrv
-
+import YawVerif.Drv.Spec
 def main : IO Unit := do
   Yaw.Proto.loop Yaw.SpecDrv.handler (← IO.getStdin) (← IO.getStdout)
